@@ -12,7 +12,7 @@ use super::flows::{recv_body_flow, recv_response_flow_cfg};
 use crate::driver::{AnyFlow, ReqCfg};
 use crate::engine::{explore, guarded, hex, show, unhex, Limits, Report, Sys, Tier, Violation};
 
-pub const RULE: &str = "(a) explicit-state search over (flow fingerprint, unconsumed window, remaining budget): actions 'append symbol' for every symbol and 'call' with output sizes {0,1,large}; = ALL strings over the alphabet up to the bound in ALL segmentations; body decoders (chunked with boundary stop off/on, Content-Length: 3, close-delimited) over bytes {0,1,a,F,g,;,SP,CR,LF,0x80} up to length 5 (thorough 6); head parsers (try_read_100 on a POST+Expect flow, try_response on GET and HEAD flows, continuing into the body state) over 26 tokens {HTTP/1.1,HTTP/1.0,HTTP/2,SP,100,200,302,99,1000,OK,CR,LF,CRLF,:,comma,A,Content-Length,Transfer-Encoding,chunked,3,-1,Location,Connection,close,0x00,0xff} up to 3 (thorough 4) tokens. (b) 12 seed exchanges x every single fault (flip each bit of each byte, delete / duplicate each byte, insert each of {CR,LF,:,SP,;,comma,0x00,0xff} at each position, replace each number by {-1, 2^64, 21 digits, 17 hex digits, empty}, splice every prefix of seed A onto every suffix of seed B for 4 seed pairs) x schedules {single call, 1-byte arrivals} x output sizes {1, large} x requests {GET, HEAD, POST+Expect HTTP/1.1, POST+Expect HTTP/1.0 with Connection: close, POST+Expect whose caller gave up waiting and sent the body}; thorough: also all double faults (bit flip pairs excluded) on the 4 shortest seeds. (c) 129/200/1000 fields, 65536- and 70000-byte header names, 1 MiB value, 100 KiB reason, 40-digit Content-Length, 30-digit chunk size, five simultaneous close conditions; chunk-size lines (without / with extension) and trailer lines of 8..130 bytes carrying one 2-, 3- or 4-byte UTF-8 character or a lone 0xff at EVERY offset; family (c) is run with the library's logging off and again at level Trace. (d) deep inputs, each in a child process so that an abort is an observation: {100, 5000, 100000} x interim responses (100 Continue, bare 100, 103) ahead of a final response, as many one-byte chunks and trailers, as many empty lines after the status line, through all five request kinds. distinct = distinct (entry point, final flow state class, error class) outcomes";
+pub const RULE: &str = "(a) explicit-state search over (flow fingerprint, unconsumed window, remaining budget): actions 'append symbol' for every symbol and 'call' with output sizes {0,1,large}; = ALL strings over the alphabet up to the bound in ALL segmentations; body decoders (chunked with boundary stop off/on, Content-Length: 3, close-delimited) over bytes {0,1,a,F,g,;,SP,CR,LF,0x80} up to length 5 (thorough 6); head parsers (try_read_100 on a POST+Expect flow, try_response on GET and HEAD flows, continuing into the body state) over 26 tokens {HTTP/1.1,HTTP/1.0,HTTP/2,SP,100,200,302,99,1000,OK,CR,LF,CRLF,:,comma,A,Content-Length,Transfer-Encoding,chunked,3,-1,Location,Connection,close,0x00,0xff} up to 3 (thorough 4) tokens. (b) 12 seed exchanges x every single fault (flip each bit of each byte, delete / duplicate each byte, insert each of {CR,LF,:,SP,;,comma,0x00,0xff} at each position, replace each number by {-1, 2^64, 21 digits, 17 hex digits, empty}, splice every prefix of seed A onto every suffix of seed B for 4 seed pairs) x schedules {single call, 1-byte arrivals} x output sizes {1, large} x requests {GET, HEAD, POST+Expect HTTP/1.1, POST+Expect HTTP/1.0 with Connection: close, POST+Expect whose caller gave up waiting and sent the body, GET carrying an Expect header}; thorough: also all double faults (bit flip pairs excluded) on the 4 shortest seeds. (c) 129/200/1000 fields, 65536- and 70000-byte header names, 1 MiB value, 100 KiB reason, 40-digit Content-Length, 30-digit chunk size, five simultaneous close conditions; chunk-size lines (without / with extension) and trailer lines of 8..130 bytes carrying one 2-, 3- or 4-byte UTF-8 character or a lone 0xff at EVERY offset; family (c) is run with the library's logging off and again at level Trace. (d) deep inputs, each in a child process so that an abort is an observation: {100, 5000, 100000} x interim responses (100 Continue, bare 100, 103) ahead of a final response, as many one-byte chunks and trailers, as many empty lines after the status line, through all five request kinds. distinct = distinct (entry point, final flow state class, error class) outcomes";
 
 // ------------------------------------------------------------------------------------------
 // common oracle pieces
@@ -426,12 +426,15 @@ fn cheap_faults(seed: &[u8]) -> Vec<Vec<u8>> {
     out
 }
 
-const REQS: [&str; 5] = ["GET", "HEAD", "POST-expect-11", "POST-expect-10-close", "POST-expect-gaveup"];
+const REQS: [&str; 6] = ["GET", "HEAD", "POST-expect-11", "POST-expect-10-close", "POST-expect-gaveup", "GET-with-expect"];
 
 fn start_flow(kind: &str) -> AnyFlow {
     let rc = match kind {
         "GET" => ReqCfg::new("GET", "1.1", "http://a.test/p"),
         "HEAD" => ReqCfg::new("HEAD", "1.1", "http://a.test/p"),
+        // a body-less request that carries an Expect header all the same (set by the caller, or inherited
+        // by a redirected request): nothing is awaited, but the server may answer 100 first
+        "GET-with-expect" => ReqCfg::new("GET", "1.1", "http://a.test/p").orig("expect", "100-continue"),
         "POST-expect-11" | "POST-expect-gaveup" => ReqCfg::new("POST", "1.1", "http://a.test/p").orig("content-length", "3").orig("expect", "100-continue"),
         _ => ReqCfg::new("POST", "1.0", "http://a.test/p").orig("content-length", "3").orig("expect", "100-continue").orig("connection", "close"),
     };
